@@ -292,6 +292,7 @@ structure FieldS where
 inductive SelN
   | scalar (key : String) (fld : Nat)
   | id (key : String)
+  | agg (key : String) (fn : AggFn) (fld : Nat)
   | sub (key : String) (fld : Nat) (child : Nat)
 
 structure Node where
@@ -356,6 +357,7 @@ def buildQuery (c : Case5) : Nat → Nat → Option Query
       match sn with
       | .scalar key fld => some (Sel.scalar key fld)
       | .id key => some (Sel.id key)
+      | .agg key fn fld => some (Sel.agg key fn fld)
       | .sub key fld child => (buildQuery c fuel child).map fun q => Sel.sub key fld (nd.optional.contains key) q
     some (Query.mk nd.ent sels nd.filters nd.orders nd.first nd.skip nd.after nd.before)
 
@@ -395,6 +397,7 @@ mutual
         match sel with
         | .scalar key _ => key ++ "=" ++ (match fieldOf row key with | some x => canonScalar x | none => "absent")
         | .id key => key ++ "=" ++ (match fieldOf row key with | some x => canonScalar x | none => "absent")
+        | .agg key _ _ => key ++ "=" ++ (match fieldOf row key with | some x => canonScalar x | none => "absent")
         | .sub key _ _ sq =>
           key ++ "=" ++ (match fieldOf row key with
             | some (.arr items) => "[" ++ joinWith "," (canonRows c fuel sq items) ++ "]"
@@ -408,7 +411,7 @@ mutual
     | 0, _, _ => []
     | fuel + 1, q, items =>
       let visible := (q.orders.filter fun o => q.sels.any fun sel =>
-        match sel with | .scalar key _ => key = o.name | _ => false).map (·.name)
+        match sel with | .scalar key _ => key = o.name | .agg key _ _ => key = o.name | _ => false).map (·.name)
       let rows := items.map fun r =>
         (visible.map fun k => match fieldOf r k with | some x => canonScalar x | none => "", canonRow c fuel q r)
       normRuns rows [] none []
@@ -547,6 +550,14 @@ def step (c : Case5) (kind : String) (toks : List String) : Case5 × String :=
           | none => (c, "bad-op")
       | none => (c, "bad-op")
     | _, _, _ => (c, "bad-op")
+  | "qg" =>
+    match nat? toks "n", kv? toks "key", kv? toks "fn", nat? toks "f" with
+    | some n, some key, some fn, some f =>
+      let fn? : Option AggFn := match fn with | "count" => some .count | "min" => some .min | "max" => some .max | _ => none
+      match getNode c n, fn? with
+      | some nd, some fn => (setNode c n { nd with sels := nd.sels ++ [.agg key fn f] }, "ok")
+      | _, _ => (c, "bad-op")
+    | _, _, _, _ => (c, "bad-op")
   | "qe" =>
     match nat? toks "n", kv? toks "key", nat? toks "f", nat? toks "child" with
     | some n, some key, some f, some ch =>
@@ -643,7 +654,7 @@ def stepLine (s : St) (line : String) : St × String :=
       | none => (s, "bad-op")
     | _, _ => (s, "bad-op")
   | kind :: rest =>
-    if ["ent", "fld", "build", "upgrade", "row", "q", "qs", "qe", "qf", "qo", "ql", "qa", "qn", "run", "pages"].contains kind then
+    if ["ent", "fld", "build", "upgrade", "row", "q", "qs", "qe", "qg", "qf", "qo", "ql", "qa", "qn", "run", "pages"].contains kind then
       match s.c05 with
       | some c => let (c', o) := Q5.step c kind rest; ({ s with c05 := some c' }, o)
       | none => (s, "bad-op")
